@@ -312,6 +312,18 @@ func (c18) Run(t *tape.Tape, cfg sim.Config) (res sim.Result) {
 		smp = smp[:8]
 	}
 	res.Sample = smp
+	// a two-module guest (a WASI import reached through a table from a function another module calls)
+	for _, eng := range []string{"interpreter", "compiler"} {
+		tr, err := pairTrace(eng)
+		if err != nil {
+			res.Fail("trace-differs", "two-module default-configured guest on the %s: %v", eng, err)
+			return
+		}
+		if fmt.Sprint(tr) != fmt.Sprint(pairExpected()) {
+			res.Fail("trace-differs", "two-module default-configured guest on the %s: ticks %v, expected %v (each instance has its own fake clock and memory)", eng, tr, pairExpected())
+			return
+		}
+	}
 	if cfg.Class != "processes" {
 		return
 	}
@@ -407,7 +419,12 @@ func closureChecks(res *sim.Result, shared bool) bool {
 		}
 		g.Write(0x4000, sub)
 		t0 := time.Now()
-		if e, err := g.Call(ctx, "poll_oneoff", 0x4000, 0x5000, 1, 0x100); err != nil || e != 0 {
+		// (the call's context is cancellable and has a deadline, as an embedder's often has: the default
+		// configuration's sleep must stay the fake one)
+		pctx, pcancel := context.WithTimeout(ctx, 6*time.Second)
+		e, err := g.Call(pctx, "poll_oneoff", 0x4000, 0x5000, 1, 0x100)
+		pcancel()
+		if err != nil || e != 0 {
 			return fail("poll_oneoff with a clock subscription failed: errno %d %v", e, err)
 		}
 		if d := time.Since(t0); d > 5*time.Second {
